@@ -28,10 +28,19 @@ type vslStream struct {
 	reset  bool
 	final  int64 // final size of the first RESET_STREAM seen (-1: none)
 	code   uint64
+	// the application called Reset (or the peer's STOP_SENDING arrived) while the send side was
+	// not finished yet (not everything including the FIN acknowledged): a RESET_STREAM is owed
+	// and no STREAM data may follow
+	resetOwed bool
+	// what the peer has received and acknowledged: data ranges and the FIN (every packet the
+	// script keeps is acknowledged by the end of the run)
+	covered rangeset[int64]
+	finKept bool
+	finOff  int64
 }
 
 type vslResult struct {
-	Frames, Streams, AtStreamLimit, AtConnLimit, Raises, StaleRaises, Lost, PTOs, Resets, ResetsChecked int64
+	Frames, Streams, AtStreamLimit, AtConnLimit, Raises, StaleRaises, Lost, PTOs, Resets, ResetsChecked, FinsBeforeReset, ResetsOwedSeen, ResetsOvertakenByAcks int64
 }
 
 // vslRun runs one scripted case. viol reports oracle failures; withResets adds C32's part.
@@ -119,6 +128,9 @@ func vslRun(t *testing.T, rng *rand.Rand, withResets bool, viol func(key, format
 						}
 						res.Frames++
 						end := f.off + int64(len(f.data))
+						if st.resetOwed && !st.reset && len(f.data) > 0 {
+							viol("stream-data-after-application-reset-scripted", "STREAM [%d,%d) on %s stream %d in packet %d, sent after the stream was reset (Stream.Reset or the peer's STOP_SENDING) and before any RESET_STREAM", f.off, end, st.kind, f.id, p.num)
+						}
 						if st.reset {
 							viol("stream-data-after-reset-scripted", "STREAM [%d,%d) on %s stream %d in packet %d after its RESET_STREAM (final size %d)", f.off, end, st.kind, f.id, p.num, st.final)
 						}
@@ -155,6 +167,18 @@ func vslRun(t *testing.T, rng *rand.Rand, withResets bool, viol func(key, format
 				if drop && rng.IntN(100) < dropPct {
 					res.Lost++
 					continue
+				}
+				for _, f := range p.frames {
+					if f, ok := f.(debugFrameStream); ok {
+						if st := byID[f.id]; st != nil {
+							if len(f.data) > 0 {
+								st.covered.add(f.off, f.off+int64(len(f.data)))
+							}
+							if f.fin {
+								st.finKept, st.finOff = true, f.off+int64(len(f.data))
+							}
+						}
+					}
 				}
 				kept.add(p.num, p.num+1)
 				pendingAck = true
@@ -229,9 +253,25 @@ func vslRun(t *testing.T, rng *rand.Rand, withResets bool, viol func(key, format
 			}
 		}
 		if withResets {
+			// some streams are finished first: the FIN and the data before it travel in different
+			// packets, of which the peer acknowledges what it gets
+			for _, st := range streams {
+				if rng.IntN(3) == 0 {
+					st.s.CloseWrite()
+					res.FinsBeforeReset++
+				}
+			}
+			deliver(true)
+			ack()
+			deliver(true) // whatever goes out from here on was sent after the resets below
 			for _, st := range streams {
 				if rng.IntN(2) == 0 {
 					continue
+				}
+				select {
+				case <-st.s.outdone:
+				default:
+					st.resetOwed = true
 				}
 				if rng.IntN(2) == 0 && st.kind != "local-uni" {
 					// the peer asks for the reset
@@ -251,6 +291,19 @@ func vslRun(t *testing.T, rng *rand.Rand, withResets bool, viol func(key, format
 			sleepToTimer(20 * time.Second)
 		}
 		deliver(false)
+		for _, st := range streams {
+			if st.resetOwed && !st.reset && st.finKept && (st.finOff == 0 || st.covered.isrange(0, st.finOff)) {
+				// the peer acknowledged all of the stream including its FIN (in packets sent
+				// before the reset): the stream was complete, no RESET_STREAM is needed
+				res.ResetsOvertakenByAcks++
+				continue
+			}
+			if st.resetOwed && !st.reset {
+				viol("reset-stream-never-sent-scripted", "%s stream %d was reset (Stream.Reset or the peer's STOP_SENDING) while its send side was not finished, the peer has not received all of it (acknowledged data %v, FIN acknowledged %v, highest offset sent %d), and no RESET_STREAM was sent in 12 rounds of delivery, acknowledgement and loss timers", st.kind, st.id, st.covered, st.finKept, st.maxEnd)
+			} else if st.resetOwed {
+				res.ResetsOwedSeen++
+			}
+		}
 	})
 	return res
 }
